@@ -143,7 +143,7 @@ def run (xs : XS) (toks : List String) : XS × String :=
   match toks with
   | ["sizes"] =>
     let sz := (xs.cap + xs.align - 1) / xs.align * xs.align
-    (xs, outLine s!"sizes {",".intercalate (xs.specs.map fun _ => s!"{sz}/{xs.align}")}" [] [])
+    (xs, outLine s!"sizes {",".intercalate ((xs.specs.map fun _ => s!"{sz}/{xs.align}") ++ [s!"{sz}/{xs.align}"])}" [] [])
   | ["place", _, _] => (xs, outLine "ok" [] [])
   | ["rename", a, b] =>
     match a.toNat?, b.toNat? with
